@@ -22,8 +22,25 @@ TOL = 1e-12
 
 @st.composite
 def cases(draw, tier="quick"):
-    spec = draw(pomdp_specs(max_states=5 if tier == "thorough" else 4, extreme=True))
+    spec = draw(st.one_of(pomdp_specs(max_states=5 if tier == "thorough" else 4, extreme=True),
+                          pomdp_specs(min_states=4, max_states=6, max_actions=2, max_obs=2,
+                                      absorbing_kinds=("n", "abs", "abs", "abs", "abs"))))
     b = draw(belief_weights(spec["n"]))
+    from vpm.ref.mdp import closure as _closure
+    if spec["n"] >= 4 and draw(st.integers(0, 3)) == 0:
+        # several absorbing states inside the initial support (so that beliefs can be split over 3-4 of them)
+        from vpm.gen.mdp import normalise_absorbing_successors
+        k = draw(st.integers(3, min(4, spec["n"])))
+        for s in range(k):
+            spec["absorbing"][s] = 1
+        spec["p0"] = [[s, draw(st.integers(1, 3))] for s in range(min(spec["n"], k + 1))]
+        normalise_absorbing_successors(spec)
+    absn = [s for s in sorted(_closure(spec)) if spec["absorbing"][s]]
+    if len(absn) >= 2 and draw(st.integers(0, 1)) == 0:
+        # all mass on (several) absorbing states, with weights whose float sum is often 1 - ulp
+        b = [0] * spec["n"]
+        for s in absn:
+            b[s] = draw(st.sampled_from([1, 2, 7, 3, 11, 13]))
     seq = draw(st.lists(st.tuples(st.integers(0, spec["m"] - 1), st.integers(0, spec["k"] - 1)), min_size=0, max_size=5))
     return {"pomdp": spec, "belief": b, "seq": [list(x) for x in seq]}
 
@@ -151,6 +168,12 @@ def prop_beliefmdp(case, ctx):
         for nb, p in nsd.items():
             ctx.check(abs(sum(nb.probs) - 1) <= 1e-9, "C07.beliefmdp.successor_belief_normalised", lambda: f"{nb}")
             ctx.check(tuple(nb.states) == tuple(sl), "C07.beliefmdp.successor_states")
+            # the absorbing test on beliefs the filter itself produced (probabilities carry rounding error)
+            nb_abs = all(bool(spec["absorbing"][view.sidx[s]]) for s, q in zip(nb.states, nb.probs) if q > 0)
+            ctx.check(bool(bm.is_absorbing(nb)) == nb_abs, "C07.beliefmdp.is_absorbing_of_successor_belief",
+                      lambda: f"successor belief {nb}: is_absorbing={bm.is_absorbing(nb)}, absorbing flags {spec['absorbing']}")
+            if nb_abs and sum(1 for q in nb.probs if q > 0) >= 2:
+                ctx.event("successor_belief_split_over_absorbing_states")
             for s, q in zip(nb.states, nb.probs):
                 mean[s] += p * q
             # matches some reference successor with the right probability
@@ -168,6 +191,10 @@ def prop_beliefmdp(case, ctx):
         r = bm.reward(b, A[a], None)
         ctx.check(abs(r - float(ref.expected_reward(rb, a))) <= 1e-9, "C07.beliefmdp.reward",
                   lambda: f"a={a}: {r} expected {ref.expected_reward(rb, a)}")
+    if want_abs and len(rb) >= 2:
+        ctx.event("belief_split_over_absorbing_states")
+        if sum(b.probs) != 1.0:
+            ctx.event("belief_split_over_absorbing_states_float_sum_not_one")
     ctx.nontrivial(branching and len(rb) >= 2)
 
 
@@ -199,10 +226,10 @@ def prop_track(case, ctx):
 
 
 PROPS = [
-    Prop("filter", lambda tier: cases(tier), prop_filter, quick=2500, thorough=50000,
+    Prop("filter", lambda tier: cases(tier), prop_filter, quick=2500, thorough=150000,
          doc="state_estimator / predictive_observation (dict and vec) and observation_matrix vs exact Bayes"),
-    Prop("beliefmdp", lambda tier: cases(tier), prop_beliefmdp, quick=1500, thorough=30000,
+    Prop("beliefmdp", lambda tier: cases(tier), prop_beliefmdp, quick=1500, thorough=90000,
          doc="BeliefMDP transitions, reward, absorbing test, initial belief"),
-    Prop("track", lambda tier: cases(tier), prop_track, quick=1500, thorough=30000,
+    Prop("track", lambda tier: cases(tier), prop_track, quick=1500, thorough=90000,
          doc="value-based policy agent state follows the Bayes posterior along action/observation sequences"),
 ]
